@@ -8,7 +8,7 @@ ORD = [b"x", b"X", b"y", b"IFS", b"HOME", b"", "é".encode(), b"a b", b"x=1"]
 SPEC = [b"@", b"*", b"#", b"?", b"-", b"$", b"!", b"0"]
 POS = [b"1", b"2", b"3", b"10", b"11", b"00", b"01", b"007", b"99999999999999999999", b"1a", b"-1"]
 VALS = [b"", b"a", b"b c", b"0", "日本".encode(), b" \t\n"]
-ARGS = [[b"sh"], [b"sh", b"a", b"b"], [b"sh", b""], [b"go.sh"] + [bytes([97 + i]) for i in range(11)]]
+ARGS = [[b"sh"], [b"sh", b"a", b"b"], [b"sh", b""], [b"", b"x"], [b"go.sh"] + [bytes([97 + i]) for i in range(11)]]
 
 
 def opstr(o):
